@@ -58,10 +58,10 @@ func init() {
 		Rates: OpRates{Exit: 10, PSlash: 5, ASlash: 5, BLSChange: 20, Deposit: 10},
 		Init:  func(c *Chain) { c.SpareShare = 80 },
 		Mode: func(c *Chain, e common.Epoch) string {
-			if c.Rng.Chance(75) {
+			if c.Rng.Chance(65) {
 				return "full"
 			}
-			return pick(c.Rng, "mostly", "mixed", "boundary_hi", "late")
+			return pick(c.Rng, "mostly", "mixed", "boundary_hi", "boundary_hi", "boundary_lo", "late")
 		},
 		Check: func(c *Chain) (out []string) {
 			commonChecks(c, &out)
@@ -226,7 +226,9 @@ func init() {
 		Check: func(c *Chain) (out []string) {
 			commonChecks(c, &out)
 			expect(c.Stats.Get("sync_period_boundary_at_fork") >= 1, &out, "no sync period boundary coincided with a fork epoch")
-			expect(c.Stats.Get("sync_committee_rotations") >= 1, &out, "sync committee never rotated")
+			if c.Spec.SHUFFLE_ROUND_COUNT > 0 { // without shuffling the committee is always the first eligible validators
+				expect(c.Stats.Get("sync_committee_rotations") >= 1, &out, "sync committee never rotated")
+			}
 			return
 		},
 	})
